@@ -135,50 +135,6 @@ def table_stats(rep, rows):
                    stale_policy_entries=[r['field'] for r in rows if r['disc'] == 'stale'],
                    fields_not_reached_by_any_workload_static=unreached, fields_with_a_single_accessor_function=single)
 
-# ---------------------------------------------------------------- coverage of accessor functions (thorough tier)
-
-def measure_function_coverage(rep, wd, rows, seed):
-    """builds raceh with -cover and runs one small shard: which accessor functions of the table were executed at all"""
-    try:
-        with common.Lock('go'):
-            ov = common.write_overlay(common.inpkg_files())
-            out = os.path.join(common.BIN, 'raceh-cover')
-            rc, o = common.sh(['go', 'build', '-tags', 'verif', '-overlay', ov, '-cover', '-coverpkg=github.com/cloudwego/netpoll,github.com/cloudwego/netpoll/mux', '-o', out] +
-                              (['-modfile', os.path.join(common.WORK, 'go.scratch.mod')] if common.REPO != '/repo' else []) + ['./cmd/raceh'],
-                              cwd=common.GO, env=common.go_env(), timeout=900)
-        if rc != 0:
-            rep.notes.append('function coverage not measured: cover build failed: ' + o[-300:]); return
-        cd = os.path.join(wd, 'cov'); os.makedirs(cd, exist_ok=True)
-        subprocess.run([out, '-seed', str(seed), '-n', '24'], env=dict(os.environ, GOCOVERDIR=cd), stdout=subprocess.DEVNULL, stderr=subprocess.DEVNULL, timeout=1200)
-        rc, o = common.sh(['go', 'tool', 'covdata', 'func', '-i', cd], env=common.go_env(), timeout=300)
-        executed = set(); seen = set()
-        for l in o.split('\n'):
-            m = re.match(r'(\S+\.go):(\d+):\s+(\S+)\s+([\d.]+)%', l)
-            if not m: continue
-            path, line, name, pct = m.group(1), int(m.group(2)), m.group(3), float(m.group(4))
-            rel = path.split('cloudwego/netpoll/')[-1]
-            src = os.path.join(common.REPO, rel)
-            recv = ''
-            try:
-                sl = open(src).read().split('\n')[line - 1]
-                mm = re.match(r'func \(\w+ \*?(\w+)\) ', sl)
-                if mm: recv = mm.group(1) + '.'
-            except OSError:
-                pass
-            fn = ('mux.' if rel.startswith('mux/') else '') + recv + name
-            seen.add(fn)
-            if pct > 0: executed.add(fn)
-        fns = set(r['fn'].split('$')[0] for r in rows if r['disc'] != 'stale')
-        never = sorted(f for f in fns if f in seen and f not in executed)
-        by_field = collections.defaultdict(set)
-        for r in rows:
-            if r['disc'] != 'stale': by_field[r['field']].add(r['fn'].split('$')[0])
-        dead_fields = sorted(f for f, s in by_field.items() if not (s & executed))
-        rep.cov.update(accessor_functions=len(fns), accessor_functions_executed_by_workloads=len(fns & executed),
-                       accessor_functions_never_executed=never, fields_with_no_executed_accessor=dead_fields)
-    except Exception as e:
-        rep.notes.append('function coverage not measured: %r' % (e,))
-
 # ---------------------------------------------------------------- main
 
 def report_races(rep, results, label='', suffix=''):
@@ -194,6 +150,16 @@ def report_races(rep, results, label='', suffix=''):
                       ['sig ' + sig, '# re-run by hand: cd /verif && GORACE=halt_on_error=0 ' + r['cmd'], '# race detector report:'] + ['| ' + l for l in text.split('\n')], tag='race-')
     return sigs
 
+def corpus_jobs():
+    """regression replays of past findings (corpus/C19/*.txt, `run seed= n= which=` lines): always run first"""
+    d = os.path.join(common.VERIF, 'corpus', PROP); jobs = []
+    if os.path.isdir(d):
+        for f in sorted(os.listdir(d)):
+            for l in open(os.path.join(d, f)):
+                m = re.match(r'run seed=(\d+) n=(\d+) which=(\S+)', l)
+                if m: jobs.append((int(m.group(1)), int(m.group(2)), '' if m.group(3) == '-' else m.group(3)))
+    return jobs
+
 def run(rep):
     wd = os.path.join(common.WORK, PROP); shutil.rmtree(wd, ignore_errors=True); os.makedirs(wd)
     thorough = rep.tier == 'thorough'
@@ -207,7 +173,7 @@ def run(rep):
     if binary is None:
         rep.violation('race harness does not build against /repo:\n' + out[-2000:], ['# go build -race failed'], no_input=True); return
     t0 = time.time()
-    jobs = [(rep.seed * 1000 + i, n, '') for i in range(shards)]
+    jobs = corpus_jobs() + [(rep.seed * 1000 + i, n, '') for i in range(shards)]
     results = run_many(binary, jobs)
     # diagnostics of the discipline table from the compiled policy (names the non-complying access when the theorem broke)
     if not os.path.exists(common.DRIVER) or proof_broken: common.lake_build(['npdriver'])
@@ -230,6 +196,7 @@ def run(rep):
         suffix = ' [the proof stage broke as well: %s]' % proof_broken.split('\n')[0][:200]
     sigs = report_races(rep, results, suffix=suffix)
     crashed = [r for r in results if r['crashed']]
+    rep.cov['corpus_replays'] = len(corpus_jobs())
     rep.cov.update(evaluations=sum(counts.values()), distinct_nontrivial=len(set((w, r['seed']) for r in results for w, c in r['counts'].items() if c)),
                    rule='one evaluation = one execution of a workload scenario (parameters derived from the shard seed) on the real code built with -race; '
                         'distinct_nontrivial = distinct (workload kind, shard seed) pairs executed; every scenario runs >= 2 goroutines against one connection / server / queue / the poller pool',
@@ -237,13 +204,12 @@ def run(rep):
                    workloads_run_per_kind=dict(counts), race_reports=sum(len(r['reports']) for r in results), distinct_race_signatures=list(sigs.keys()),
                    race_run_wall_s=round(time.time() - t0, 1), traces_validated_against_impl=sum(counts.values()))
     if rows: table_stats(rep, rows)
-    if thorough and rows: measure_function_coverage(rep, wd, rows, rep.seed)
     rep.assumptions += ['ordering hypotheses of C19_no_race (exclusive holders of processing / connecting / flushing / slot token / runNum / status CAS / spin locks; init-before-publish; reset-after-retire; trigger counter hand-off) are taken from the C05/C06/C09/C10/C17/C18 models and the API contract',
                         'role / lock annotations in Netpoll.Race.policyTab are trusted at function granularity',
                         'deadline and timeout setters are called by the goroutine that reads / writes (part of the single-reader / single-writer contract)',
                         'SetNumLoops / SetLoadBalance / Configure / SetLoggerOutput are not concurrent with connection creation (documented)',
                         'A-go-mm: sync/atomic operations are sequentially consistent synchronisation operations',
-                        'race detector runs sample schedules; a shared field may be touched by only one goroutine in a given run (no per-field two-goroutine instrumentation; thorough tier lists accessor functions never executed)']
+                        'race detector runs sample schedules; a shared field may be touched by only one goroutine in a given run (no per-field two-goroutine instrumentation; the evidence lists, statically, the fields no workload reaches and the fields with a single accessor function)']
     if crashed and not sigs:
         rep.notes.append('workload processes that ended abnormally: ' + '; '.join('%s: %s' % (c['cmd'], c['crashed']) for c in crashed[:5]))
     if proof_broken and not sigs:
